@@ -978,6 +978,16 @@ fn mutate(base: &[u8], op: &str, p: usize, q: usize, seed: u64) -> Vec<u8> {
                 v = format!("{}<!--{}-->{}", &s[..gt + 1], "x".repeat(2_000_000), &s[gt + 1..]).into_bytes();
             }
         }
+        "query" => {
+            // replace the query part of the p-th token that has one (capability URIs with parameters)
+            let s = String::from_utf8_lossy(base).to_string();
+            let vals = ["?", "?x", "?a=b", "?scheme", "?scheme=", "?=", "?&", "?scheme=&x=", "", "?scheme=a&scheme=b", "?\u{fc}=1"];
+            let marks: Vec<usize> = s.match_indices('?').map(|(i, _)| i).filter(|i| *i > 0 && s[..*i].rfind('>') > s[..*i].rfind('<')).collect();
+            if let Some(&at) = marks.get(p % marks.len().max(1)) {
+                let end = s[at..].find('<').map(|e| at + e).unwrap_or(s.len());
+                v = format!("{}{}{}", &s[..at], vals[q % vals.len()], &s[end..]).into_bytes();
+            }
+        }
         "leaftext" => {
             // replace the text of the p-th text-only element by an odd value
             let s = String::from_utf8_lossy(base).to_string();
